@@ -106,7 +106,7 @@ func zzC04_ClaimAtomic() {
 		}
 		unchanged := p.State == t.State && p.ClaimedBy == t.ClaimedBy
 		claimed := p.State == "doing" && p.ClaimedBy == "agent-a"
-		zzAssert(unchanged || claimed, "C04/claim[one write per event]: after a kill the task is either untouched or fully claimed")
+		zzAssert(unchanged || claimed, "C04/claim: after a kill the task is either untouched or fully claimed")
 	}
 	zzReach("end")
 }
